@@ -229,7 +229,14 @@ Section GrowModel.
            end
     end.
 
-  (* pvAdd (after pvFind said "absent"), 1102-1117, with pvAddGrow 1146-1185 *)
+  (* pvAddGrow 1151-1159: `while (true) { newCapacity = CalcCapacity(1 << newLog); if (newCapacity > mCount) break; ++newLog; }`
+     (the table may be overloaded by earlier fallback insertions).  Fuel mCount + 2 always suffices when capacities
+     grow with the table size (grow_log_total); None = the loop would run away. *)
+  Fixpoint grow_log (fuel : nat) (nl c : Z) : option Z :=
+    if c <? calcCapacity (2 ^ nl) then Some nl
+    else match fuel with O => None | S f => grow_log f (nl + 1) c end.
+
+  (* pvAdd (after pvFind said "absent"), 1102-1117, with pvAddGrow 1146-1191 *)
   Definition hadd (s : hset) (k : Z) (afail refuse : bool) (sch : list bool) : option (hset * out) :=
     if count s <? capacity s then
       match gens s with
@@ -237,15 +244,16 @@ Section GrowModel.
       | t :: r => add_head s t r k afail (capacity s) sch
       end
     else
-      let nl := newLog (gens s) in
-      let ncap := calcCapacity (2 ^ nl) in
-      if ncap <=? count s then Some (s, RCheck)      (* MOMO_CHECK(newCapacity > mCount) *)
-      else if refuse then
-        match gens s with
-        | [] => Some (s, RBadAlloc)                  (* no table to fall back to *)
-        | t :: r => add_head s t r k afail (capacity s) sch      (* overloadIfCannotGrow *)
-        end
-      else add_head s (newTable nl) (gens s) k afail ncap sch.
+      match grow_log (Z.to_nat (count s) + 2) (newLog (gens s)) (count s) with
+      | None => Some (s, RCheck)                     (* unreachable for capacities that grow with the table *)
+      | Some nl =>
+        if refuse then
+          match gens s with
+          | [] => Some (s, RBadAlloc)                (* no table to fall back to *)
+          | t :: r => add_head s t r k afail (capacity s) sch      (* overloadIfCannotGrow *)
+          end
+        else add_head s (newTable nl) (gens s) k afail (calcCapacity (2 ^ nl)) sch
+      end.
 
   (* Reserve, 709-732: ++newLogBucketCount until the capacity suffices *)
   Fixpoint reserve_log (fuel : nat) (nl n : Z) : option Z :=
@@ -1008,6 +1016,13 @@ Section GrowModel.
     - intros HT. destruct (N2 HT) as [A|A]; simpl in *; lia.
   Qed.
 
+  Lemma grow_log_spec : forall fuel nl c r, grow_log fuel nl c = Some r -> nl <= r /\ c < calcCapacity (2 ^ r).
+  Proof.
+    induction fuel; intros nl c r H; simpl in H; destruct (Z.ltb_spec c (calcCapacity (2 ^ nl))); try discriminate;
+      try (inversion H; subst; split; [lia|auto]).
+    apply IHfuel in H. split; [lia|tauto].
+  Qed.
+
   Lemma hadd_spec : forall s k afail refuse sch s' o, Inv s -> ~ In k (abs s) ->
     hadd s k afail refuse sch = Some (s', o) ->
     (o = RInserted /\ Inv s' /\ Permutation (abs s') (k :: abs s)) \/
@@ -1025,15 +1040,16 @@ Section GrowModel.
       - right. intuition. }
     destruct (count s <? capacity s).
     - destruct (gens s) as [|t r] eqn:EG; [inversion H; subst; right; auto|]. eapply GEN; eauto.
-    - destruct (calcCapacity (2 ^ newLog (gens s)) <=? count s); [inversion H; subst; right; auto|].
+    - destruct (grow_log (Z.to_nat (count s) + 2) (newLog (gens s)) (count s)) as [nl|] eqn:EGL; [|inversion H; subst; right; auto].
+      assert (NL : 0 <= nl) by (pose proof (newLog_nonneg _ HF); pose proof (grow_log_spec _ _ _ _ EGL); lia).
       destruct refuse.
       + destruct (gens s) as [|t r] eqn:EG; [inversion H; subst; right; auto|]. eapply GEN; eauto.
-      + assert (HF' : Forall tinv (newTable (newLog (gens s)) :: gens s)).
-        { constructor; auto. apply tinv_newTable. apply newLog_nonneg; auto. }
-        assert (EK : allkeys (newTable (newLog (gens s)) :: gens s) = abs s).
+      + assert (HF' : Forall tinv (newTable nl :: gens s)).
+        { constructor; auto. apply tinv_newTable. auto. }
+        assert (EK : allkeys (newTable nl :: gens s) = abs s).
         { unfold abs. simpl. rewrite tkeys_newTable. auto. }
-        assert (ND' : NoDup (k :: allkeys (newTable (newLog (gens s)) :: gens s))) by (rewrite EK; auto).
-        assert (HC' : count s = Z.of_nat (length (allkeys (newTable (newLog (gens s)) :: gens s)))) by (rewrite EK; auto).
+        assert (ND' : NoDup (k :: allkeys (newTable nl :: gens s))) by (rewrite EK; auto).
+        assert (HC' : count s = Z.of_nat (length (allkeys (newTable nl :: gens s)))) by (rewrite EK; auto).
         destruct (add_head_spec _ _ _ _ _ _ _ _ _ HF' ND' HC' HN H)
           as [(A1 & A2 & A3 & A4 & A5 & A6 & _)|(A1 & A2)].
         * left. rewrite EK in A6. unfold Inv. repeat split; auto.
@@ -1128,7 +1144,7 @@ Section GrowModel.
           unfold hadd in H. destruct afail; auto. exfalso.
           unfold add_head in H.
           destruct (count s <? capacity s); [destruct (gens s); [discriminate|]|
-            destruct (calcCapacity (2 ^ newLog (gens s)) <=? count s); [discriminate|destruct refuse; [destruct (gens s); [discriminate|]|]]];
+            destruct (grow_log (Z.to_nat (count s) + 2) (newLog (gens s)) (count s)); [destruct refuse; [destruct (gens s); [discriminate|]|]|discriminate]];
           match type of H with context [tadd ?t ?k] => destruct (tadd t k); discriminate end.
         * subst s'. split; auto. destruct A2 as [A2|[A2|A2]]; subst r; simpl; auto.
     - inversion H; subst. split; auto. simpl. destruct (hfind s' k) as [[[g idx] pos]|] eqn:EF.
@@ -1192,6 +1208,28 @@ Section GrowModel.
     - intros (d & Hd & NF). rewrite (add_loop_none _ _ _ _ EL d) in NF; [discriminate|lia].
   Qed.
 
+  (* capacities grow with the table size: CalcCapacity(bucketCount) >= (bucketCount - 1) / 2 *)
+  Hypothesis cc_lower : forall L, 0 <= L -> 2 ^ L <= 2 * calcCapacity (2 ^ L) + 1.
+
+  Lemma grow_log_some : forall fuel nl c, c < calcCapacity (2 ^ (nl + Z.of_nat fuel)) -> exists r, grow_log fuel nl c = Some r.
+  Proof.
+    induction fuel; intros nl c H; simpl; destruct (Z.ltb_spec c (calcCapacity (2 ^ nl))); eauto.
+    - simpl in H. rewrite Z.add_0_r in H. lia.
+    - apply IHfuel. replace (nl + 1 + Z.of_nat fuel) with (nl + Z.of_nat (S fuel)) by lia. auto.
+  Qed.
+
+  (* the loop of pvAddGrow always finds a table size (so RCheck is unreachable) *)
+  Lemma grow_log_total : forall nl0 c, 0 <= nl0 -> 0 <= c -> exists nl, grow_log (Z.to_nat c + 2) nl0 c = Some nl.
+  Proof.
+    intros nl0 c H0 Hc. apply grow_log_some.
+    set (L := nl0 + Z.of_nat (Z.to_nat c + 2)).
+    assert (HL : c + 2 <= L) by (unfold L; lia).
+    pose proof (cc_lower L ltac:(lia)) as CL.
+    assert (2 ^ (c + 2) <= 2 ^ L) by (apply Z.pow_le_mono_r; lia).
+    assert (c < 2 ^ c) by (apply Z.pow_gt_lin_r; lia).
+    rewrite Z.pow_add_r in H by lia. change (2 ^ 2) with 4 in H. lia.
+  Qed.
+
   Lemma hfind_notin_none : forall s k, ~ In k (abs s) -> hfind s k = None.
   Proof.
     intros s k H. destruct (hfind s k) as [[[g idx] pos]|] eqn:E; auto.
@@ -1199,16 +1237,19 @@ Section GrowModel.
   Qed.
 
   Theorem refused_growth_insert : forall s t r k sch, Inv s -> gens s = t :: r -> ~ In k (abs s) ->
-    (count s <? capacity s) = false -> (calcCapacity (2 ^ newLog (gens s)) <=? count s) = false ->
+    (count s <? capacity s) = false ->
     ((exists d, Z.of_nat d < bcount t /\ isFull (getb t (path (bcount t) (h k) d)) = false) ->
        exists s', step s (OInsert k false false true sch) = Some (s', RInserted) /\ Inv s' /\
                   Permutation (abs s') (k :: abs s) /\ capacity s' = capacity s /\ (length (gens s') <= length (gens s))%nat) /\
     ((forall d, Z.of_nat d < bcount t -> isFull (getb t (path (bcount t) (h k) d)) = true) ->
        step s (OInsert k false false true sch) = Some (s, RFull)).
   Proof.
-    intros s t r k sch HI EG NI C1 C2.
+    intros s t r k sch HI EG NI C1.
+    assert (GL : exists nl, grow_log (Z.to_nat (count s) + 2) (newLog (gens s)) (count s) = Some nl).
+    { apply grow_log_total; [apply newLog_nonneg; apply HI|]. destruct HI as (_ & _ & HC & _). rewrite HC. lia. }
+    destruct GL as (nl & GL).
     assert (ST : step s (OInsert k false false true sch) = add_head s t r k false (capacity s) sch).
-    { simpl. rewrite (hfind_notin_none _ _ NI). unfold hadd. rewrite C1, C2, EG. auto. }
+    { simpl. rewrite (hfind_notin_none _ _ NI). unfold hadd. rewrite C1, GL, EG. auto. }
     rewrite ST. destruct HI as (HF & HD & HC & HN). rewrite EG in HF. inversion HF; subst.
     destruct (tadd_some_iff t k H1) as (TA & TB). split.
     - intros HE. destruct (TA HE) as (t' & ET). unfold add_head. rewrite ET.
@@ -1311,7 +1352,6 @@ Section GrowModel.
   Definition fresh_insert (k : Z) : op := OInsert k false false false [].
 
   Lemma fresh_insert_step : forall s k, Inv s -> CapOk s -> ~ In k (abs s) ->
-    (step s (fresh_insert k) = Some (s, RCheck)) \/
     exists s1, step s (fresh_insert k) = Some (s1, RInserted) /\ Inv s1 /\ CapOk s1 /\
       Permutation (abs s1) (k :: abs s) /\ count s1 = count s + 1 /\
       ((count s < capacity s /\ capacity s1 = capacity s /\ (length (gens s1) <= length (gens s))%nat) \/
@@ -1323,7 +1363,7 @@ Section GrowModel.
     rewrite ST. pose proof HI as (HF & HD & HC & HN).
     unfold hadd. destruct (Z.ltb_spec (count s) (capacity s)).
     - (* room in the newest table *)
-      right. rewrite EG. rewrite EG in HF. inversion HF; subst.
+      rewrite EG. rewrite EG in HF. inversion HF; subst.
       assert (LK : Z.of_nat (length (tkeys t)) < cap * bcount t).
       { unfold abs in HC. rewrite EG in HC. simpl in HC. rewrite app_length in HC. lia. }
       destruct (tadd_succeeds t k H2 LK) as (t' & ET).
@@ -1345,9 +1385,10 @@ Section GrowModel.
       split; [unfold abs in *; rewrite EG; auto|]. split; [reflexivity|].
       left. simpl in *. auto.
     - (* growth, allocation granted *)
-      destruct (Z.leb_spec (calcCapacity (2 ^ newLog (gens s))) (count s)); [left; auto|right].
-      set (nl := newLog (gens s)) in *.
-      assert (NL : 0 <= nl) by (apply newLog_nonneg; auto).
+      assert (GL : exists nl, grow_log (Z.to_nat (count s) + 2) (newLog (gens s)) (count s) = Some nl).
+      { apply grow_log_total; [apply newLog_nonneg; auto|]. rewrite HC. lia. }
+      destruct GL as (nl & GL). rewrite GL. destruct (grow_log_spec _ _ _ _ GL) as (GE & GC).
+      assert (NL : 0 <= nl) by (pose proof (newLog_nonneg _ HF); lia).
       pose proof (cc_le_phys nl NL) as PH.
       pose proof (tinv_newTable nl NL) as TN.
       assert (BN : bcount (newTable nl) = 2 ^ nl) by reflexivity.
@@ -1386,35 +1427,31 @@ Section GrowModel.
   Theorem later_ops_complete_migration : forall ks s, Inv s -> CapOk s -> NoDup ks ->
     (forall k, In k ks -> ~ In k (abs s)) ->
     exists s' outs, run s (map fresh_insert ks) = Some (s', outs) /\
-      Forall (fun o => o = RInserted \/ o = RCheck) outs /\
-      (Forall (fun o => o = RInserted) outs ->
-         (Z.max 0 (capacity s - count s) < Z.of_nat (length ks) \/ length (gens s) = 1%nat) -> length (gens s') = 1%nat).
+      Forall (fun o => o = RInserted) outs /\ Inv s' /\ CapOk s' /\
+      ((Z.max 0 (capacity s - count s) < Z.of_nat (length ks) \/ length (gens s) = 1%nat) -> length (gens s') = 1%nat).
   Proof.
     induction ks as [|k ks IH]; intros s HI HC ND HFr.
-    - exists s, []. simpl. split; auto. split; auto. intros _ [H|H]; auto. lia.
+    - exists s, []. simpl. split; auto. split; auto. split; auto. split; auto. intros [H|H]; auto. lia.
     - inversion ND; subst.
-      destruct (fresh_insert_step s k HI HC (HFr k (or_introl eq_refl))) as [E|(s1 & E & I1 & C1 & P1 & CN & D)].
-      + (* MOMO_CHECK(newCapacity > mCount) fails: nothing changes *)
-        destruct (IH s HI HC H2) as (s' & outs & R & F & _). { intros; apply HFr; simpl; auto. }
-        exists s', (RCheck :: outs). simpl map. rewrite run_cons, E, R. split; auto. split; [constructor; auto|].
-        intros HA. inversion HA; subst. discriminate.
-      + assert (FR : forall k0, In k0 ks -> ~ In k0 (abs s1)).
-        { intros k0 Hk0 Hin. apply (Permutation_in _ P1) in Hin. simpl in Hin. destruct Hin as [Hin|Hin].
-          - subst k0. tauto.
-          - eapply HFr; [right; eauto|auto]. }
-        destruct (IH s1 I1 C1 H2 FR) as (s' & outs & R & F & G).
-        exists s', (RInserted :: outs). simpl map. rewrite run_cons, E, R. split; auto. split; [constructor; auto|].
-        intros HA HB. inversion HA; subst. apply G; auto.
-        destruct C1 as (t1 & r1 & EG1 & _).
-        destruct D as [(D1 & D2 & D3)|(D1 & D2)]; [|auto].
-        destruct HB as [HB|HB].
-        * left. simpl length in HB. lia.
-        * right. rewrite EG1 in *. simpl in *. lia.
+      destruct (fresh_insert_step s k HI HC (HFr k (or_introl eq_refl))) as (s1 & E & I1 & C1 & P1 & CN & D).
+      assert (FR : forall k0, In k0 ks -> ~ In k0 (abs s1)).
+      { intros k0 Hk0 Hin. apply (Permutation_in _ P1) in Hin. simpl in Hin. destruct Hin as [Hin|Hin].
+        - subst k0. tauto.
+        - eapply HFr; [right; eauto|auto]. }
+      destruct (IH s1 I1 C1 H2 FR) as (s' & outs & R & F & I' & C' & G).
+      exists s', (RInserted :: outs). simpl map. rewrite run_cons, E, R. split; auto. split; [constructor; auto|].
+      split; auto. split; auto.
+      intros HB. apply G.
+      destruct C1 as (t1 & r1 & EG1 & _).
+      destruct D as [(D1 & D2 & D3)|(D1 & D2)]; [|auto].
+      destruct HB as [HB|HB].
+      + left. simpl length in HB. lia.
+      + right. rewrite EG1 in *. simpl in *. lia.
   Qed.
 
   (* ---- CapOk is an invariant too (so later_ops_complete_migration applies to every reachable non-empty state) ---- *)
   Definition CapInv (s : hset) : Prop :=
-    match gens s with [] => True | t :: _ => capacity s <= cap * bcount t end.
+    match gens s with [] => capacity s = 0 | t :: _ => capacity s <= cap * bcount t end.
 
   Lemma add_head_cap : forall s t r k afail ncap sch s', Forall tinv (t :: r) ->
     add_head s t r k afail ncap sch = Some (s', RInserted) ->
@@ -1441,15 +1478,16 @@ Section GrowModel.
       destruct (hadd_spec _ _ _ _ _ _ _ HI NI H) as [(A1 & _)|(A1 & _)]; [subst r|subst s'; auto].
       unfold hadd in H. unfold CapInv in *.
       assert (GEN : forall t r0, gens s = t :: r0 -> add_head s t r0 k afail (capacity s) sch = Some (s', RInserted) ->
-                match gens s' with [] => True | t0 :: _ => capacity s' <= cap * bcount t0 end).
+                match gens s' with [] => capacity s' = 0 | t0 :: _ => capacity s' <= cap * bcount t0 end).
       { intros t r0 EG HA. rewrite EG in HF, HC. destruct (add_head_cap _ _ _ _ _ _ _ _ HF HA) as (t2 & r2 & E & L & C).
         rewrite E, C. unfold bcount in *. rewrite L. auto. }
       destruct (count s <? capacity s).
       + destruct (gens s) as [|t r0] eqn:EG; [discriminate|]. eapply GEN; eauto.
-      + destruct (calcCapacity (2 ^ newLog (gens s)) <=? count s); [discriminate|]. destruct refuse.
+      + destruct (grow_log (Z.to_nat (count s) + 2) (newLog (gens s)) (count s)) as [nl|] eqn:EGL; [|discriminate].
+        destruct refuse.
         * destruct (gens s) as [|t r0] eqn:EG; [discriminate|]. eapply GEN; eauto.
-        * assert (NL : 0 <= newLog (gens s)) by (apply newLog_nonneg; auto).
-          assert (HF' : Forall tinv (newTable (newLog (gens s)) :: gens s)) by (constructor; auto; apply tinv_newTable; auto).
+        * assert (NL : 0 <= nl) by (pose proof (newLog_nonneg _ HF); pose proof (grow_log_spec _ _ _ _ EGL); lia).
+          assert (HF' : Forall tinv (newTable nl :: gens s)) by (constructor; auto; apply tinv_newTable; auto).
           destruct (add_head_cap _ _ _ _ _ _ _ _ HF' H) as (t2 & r2 & E & L & C).
           rewrite E, C. unfold bcount. rewrite L. simpl. apply cc_le_phys; auto.
     - inversion H; subst; auto.
@@ -1479,6 +1517,25 @@ Section GrowModel.
     - destruct (step s o) as [[s1 x]|] eqn:ES; [|discriminate].
       destruct (run s1 os) as [[s2 xs]|] eqn:ER; [|discriminate]. inversion H; subst.
       destruct (step_refines _ _ _ _ HI ES) as (I1 & _). pose proof (capinv_step _ _ _ _ HI HC ES) as C1. eapply IH; eauto.
+  Qed.
+
+  (* with capacities that grow with the table size MOMO_CHECK-like failures are unreachable: Insert never answers RCheck *)
+  Theorem insert_never_check : forall s k hf af rf sch s' r, Inv s -> CapInv s ->
+    step s (OInsert k hf af rf sch) = Some (s', r) -> r <> RCheck.
+  Proof.
+    intros s k hf af rf sch s' r HI HC H. pose proof HI as (HF & _ & HCnt & _). simpl in H.
+    destruct hf; [inversion H; subst; discriminate|].
+    destruct (hfind s k) as [[[g idx] pos]|]; [inversion H; subst; discriminate|].
+    unfold hadd in H.
+    assert (AH : forall t r0 ncap, add_head s t r0 k af ncap sch = Some (s', r) -> r <> RCheck).
+    { intros t r0 ncap HA. unfold add_head in HA. destruct (tadd t k); [|inversion HA; subst; discriminate].
+      destruct af; [inversion HA; subst; discriminate|]. destruct (relocate (t0 :: r0) sch); inversion HA; subst; discriminate. }
+    destruct (Z.ltb_spec (count s) (capacity s)).
+    - destruct (gens s) as [|t r0] eqn:EG; [|eapply AH; eauto].
+      unfold CapInv in HC. rewrite EG in HC. rewrite HCnt in H0. lia.
+    - destruct (grow_log_total (newLog (gens s)) (count s)) as (nl & GL).
+      { apply newLog_nonneg; auto. } { rewrite HCnt. lia. }
+      rewrite GL in H. destruct rf; [destruct (gens s) as [|t r0]; [inversion H; subst; discriminate|]|]; eapply AH; eauto.
   Qed.
 End GrowModel.
 
@@ -1557,6 +1614,9 @@ Section Final.
     (forall bc hc i, 0 < bc -> 0 <= i < bc -> exists d, Z.of_nat d < bc /\ path start next bc hc d = i) /\
     (forall L, 0 <= L -> calcCapacity (2 ^ L) <= cap * 2 ^ L).
 
+  (* capacities grow with the table size (so the size loop of pvAddGrow always ends): CalcCapacity(bc) >= (bc - 1) / 2 *)
+  Definition kind_ok3 : Prop := forall L, 0 <= L -> 2 ^ L <= 2 * calcCapacity (2 ^ L) + 1.
+
   Notation Inv' := (Inv B b0 decode h cap wf0 start next nothrowReloc).
   Notation step' := (step B b0 decode upd_bound h cap wf0 start next logStart calcCapacity shift nothrowReloc).
   Notation run' := (run B b0 decode upd_bound h cap wf0 start next logStart calcCapacity shift nothrowReloc).
@@ -1627,10 +1687,9 @@ Section Final.
     - inversion H; auto.
   Qed.
 
-  Theorem grow_refused_insert_succeeds_unless_path_full : kind_ok -> forall s t r k sch,
+  Theorem grow_refused_insert_succeeds_unless_path_full : kind_ok -> kind_ok3 -> forall s t r k sch,
     Inv' s -> gens B s = t :: r -> ~ In k (abs B s) ->
     (count B s <? capacity B s) = false ->
-    (calcCapacity (2 ^ newLog B logStart shift (gens B s)) <=? count B s) = false ->
     ((exists d, Z.of_nat d < bcount B t /\ isFull B cap (getb B b0 wf0 t (path start next (bcount B t) (h k) d)) = false) ->
        exists s', step' s (OInsert k false false true sch) = Some (s', RInserted) /\ Inv' s' /\
                   Permutation (abs B s') (k :: abs B s) /\ capacity B s' = capacity B s /\
@@ -1638,19 +1697,18 @@ Section Final.
     ((forall d, Z.of_nat d < bcount B t -> isFull B cap (getb B b0 wf0 t (path start next (bcount B t) (h k) d)) = true) ->
        step' s (OInsert k false false true sch) = Some (s, RFull)).
   Proof.
-    intros (H1 & H2 & H3 & H4 & H5 & H6). intros.
+    intros (H1 & H2 & H3 & H4 & H5 & H6) K3. intros.
     eapply (refused_growth_insert B b0 decode upd_bound h cap wf0 start next logStart calcCapacity shift nothrowReloc); eauto.
   Qed.
 
-  Theorem later_ops_complete_migration_thm : kind_ok -> kind_ok2 -> forall ks s,
+  Theorem later_ops_complete_migration_thm : kind_ok -> kind_ok2 -> kind_ok3 -> forall ks s,
     Inv' s -> CapOk B cap s -> NoDup ks -> (forall k, In k ks -> ~ In k (abs B s)) ->
     exists s' outs, run' s (map fresh_insert ks) = Some (s', outs) /\
-      Forall (fun o => o = RInserted \/ o = RCheck) outs /\
-      (Forall (fun o => o = RInserted) outs ->
-         (Z.max 0 (capacity B s - count B s) < Z.of_nat (length ks) \/ length (gens B s) = 1%nat) ->
+      Forall (fun o => o = RInserted) outs /\ Inv' s' /\ CapOk B cap s' /\
+      ((Z.max 0 (capacity B s - count B s) < Z.of_nat (length ks) \/ length (gens B s) = 1%nat) ->
          length (gens B s') = 1%nat).
   Proof.
-    intros (H1 & H2 & H3 & H4 & H5 & H6) (K1 & K2). intros.
+    intros (H1 & H2 & H3 & H4 & H5 & H6) (K1 & K2) K3. intros.
     eapply (later_ops_complete_migration B b0 decode upd_bound h cap wf0 start next logStart calcCapacity shift nothrowReloc); eauto.
   Qed.
 
@@ -1664,6 +1722,20 @@ Section Final.
       - apply Inv_init.
       - unfold CapInv, hinit; simpl; auto. }
     unfold CapInv in C. unfold CapOk. destruct (gens B s) as [|t r] eqn:E; [congruence|]. eauto.
+  Qed.
+
+  (* after the fix of pvAddGrow no insertion can fail a capacity check any more, in any reachable state *)
+  Theorem insert_never_fails_check : kind_ok -> kind_ok2 -> kind_ok3 -> forall os s outs k hf af rf sch s' r,
+    run' (hinit B) os = Some (s, outs) -> step' s (OInsert k hf af rf sch) = Some (s', r) -> r <> RCheck.
+  Proof.
+    intros (H1 & H2 & H3 & H4 & H5 & H6) (K1 & K2) K3 os s outs k hf af rf sch s' r H HS.
+    assert (I : Inv' s).
+    { eapply (run_inv B b0 decode upd_bound h cap wf0 start next logStart calcCapacity shift nothrowReloc); eauto. apply Inv_init. }
+    assert (C : CapInv B cap s).
+    { eapply capinv_run; [..|exact H]; eauto.
+      - apply Inv_init.
+      - unfold CapInv, hinit; simpl; auto. }
+    eapply insert_never_check; [..|exact HS]; eauto.
   Qed.
 End Final.
 
@@ -1708,6 +1780,18 @@ Proof.
     + destruct (Z.eqb_spec (c_cap c) 1); [rewrite e; apply Z.div_le_upper_bound; lia|].
       destruct (Z.eqb_spec (c_cap c) 2); [rewrite e; pose proof (Z.div_le_upper_bound x 2 x ltac:(lia) ltac:(lia)); lia|]. nia.
     + destruct (c_cap c =? 7); apply Z.div_le_upper_bound; nia.
+Qed.
+
+Lemma concrete_kind_ok3 : forall c, 0 < c_cap c -> kind_ok3 (cfg_cc c).
+Proof.
+  intros c H1 L HL. assert (0 < 2 ^ L) by (apply Z.pow_pos_nonneg; lia). set (x := 2 ^ L) in *.
+  unfold cfg_cc, cc_base, cc_open. destruct (c_policy c =? 0).
+  - destruct (Z.eqb_spec (c_cap c) 1); [pose proof (Z.div_mod (x * 5) 8 ltac:(lia)); pose proof (Z.mod_pos_bound (x * 5) 8 ltac:(lia)); lia|].
+    destruct (Z.eqb_spec (c_cap c) 2); [pose proof (Z.div_pos x 2 ltac:(lia) ltac:(lia)); lia|]. lia.
+  - assert (x <= x * c_cap c) by nia. set (y := x * c_cap c) in *.
+    destruct (c_cap c =? 7).
+    + pose proof (Z.div_mod (y * 13) 14 ltac:(lia)); pose proof (Z.mod_pos_bound (y * 13) 14 ltac:(lia)); lia.
+    + pose proof (Z.div_mod (y * 11) 12 ltac:(lia)); pose proof (Z.mod_pos_bound (y * 11) 12 ltac:(lia)); lia.
 Qed.
 
 Fixpoint cfg_run (c : config) (s : hset Z) (os : list op) : option (hset Z * list out) :=
